@@ -134,7 +134,7 @@ def parseModelCell (s : String) : Option CellT :=
         | "n" => some (.num v)
         | "b" => some (.bool (v = sTRUE))
         | "e" => (ErrT.ofText? v).map .err
-        | "l" => some (.lazy [])
+        | "l" => (if runs.startsWith "=" then decodeStr (String.ofList (runs.toList.drop 1)) else none).map .lazy
         | _ => none
       raw.map fun raw => { col := col, row := row, raw := raw, formula := f, styled := st = "1" }
     | _, _, _, _ => none
